@@ -7,7 +7,7 @@ package outputstream
 // (more than 1000 distinct batches read) never come into play there.
 //
 // A group = one writer goroutine (the FSM: Add in increasing id order and
-// Delete oldest-first, never concurrently with each other, as Apply and
+// Delete oldest-first and now and then the newest, never concurrently with each other, as Apply and
 // Snapshot run on raft's FSM goroutine) beside several reader goroutines
 // (long-polling GetNext with a deadline, Get by id, LastSeen) and an
 // interrupter, on a stream prefilled and read through so that the cache holds
@@ -73,6 +73,16 @@ func c20OutRun(g c20OutGroup, dir string) error {
 			mu.Lock()
 			lo, hi := oldest, newest
 			mu.Unlock()
+			// a snapshot that folds everything (idle network) deletes the newest batch as well: the
+			// only deletion that rewrites lastseen
+			if g.Deletes && r.Intn(6) == 0 && lo+5 < hi {
+				o.Delete(robust.Id{Id: hi})
+				o.Add(c20OutBatch(hi+1, 1+r.Intn(3)))
+				mu.Lock()
+				newest++
+				mu.Unlock()
+				continue
+			}
 			if g.Deletes && r.Intn(3) == 0 && lo+5 < hi {
 				o.Delete(robust.Id{Id: lo})
 				mu.Lock()
